@@ -98,27 +98,53 @@ func runParserProp(pp *pProp, tier string) int {
 			to = 120 * time.Second
 		}
 		outs := runParserCases(pw, reqs, to, env, pp.restart)
-	// a child that did not answer in time may just be slow (a loaded machine, a
-	// costly case): run the case again, alone, with five times the limit before
-	// it counts as a hang
-	for i := range outs {
-		if outs[i].Status != "hang" {
-			continue
+		// a child that did not answer in time may just be slow (a loaded machine, a
+		// costly case): run the case again, alone, with five times the limit before
+		// it counts as a hang
+		for i := range outs {
+			if outs[i].Status != "hang" {
+				continue
+			}
+			w := &worker{bin: pw.bin, env: env}
+			resp, st, detail := pcall(w, reqs[i], 5*to)
+			if w.cmd != nil {
+				w.in.Close()
+				w.kill()
+			}
+			switch st {
+			case callOK:
+				outs[i] = pOutcome{Status: "ok", Resp: resp}
+				stats["slow_cases_completed_when_rerun_alone"]++
+			case callCrashed:
+				outs[i] = pOutcome{Status: "crash", Detail: headTail(detail, 3000, 3000)}
+			}
 		}
-		w := &worker{bin: pw.bin, env: env}
-		resp, st, detail := pcall(w, reqs[i], 5*to)
-		if w.cmd != nil {
-			w.in.Close()
-			w.kill()
+		// determinism spot check: one case in twenty is executed again in a fresh
+		// process and must give the byte-identical response; a mismatch is a defect
+		// of the harness (exit 2), never a verdict
+		{
+			var idx []int
+			var again []*parsersim.Request
+			for i := 0; i < len(reqs); i += 20 {
+				if outs[i].Status == "ok" {
+					idx = append(idx, i)
+					again = append(again, reqs[i])
+				}
+			}
+			re := runParserCases(pw, again, to, env, 1)
+			for k, o := range re {
+				if o.Status != "ok" {
+					continue
+				}
+				a, b := mustJSON(outs[idx[k]].Resp), mustJSON(o.Resp)
+				if string(a) != string(b) {
+					os.WriteFile("/tmp/verif-nondet-a.json", a, 0o644)
+					os.WriteFile("/tmp/verif-nondet-b.json", b, 0o644)
+					fatalHarness("the simulation is not deterministic: case %s gave two different responses in two processes (saved to /tmp/verif-nondet-{a,b}.json)", reqs[idx[k]].ID)
+				}
+				stats["determinism_spot_checks"]++
+			}
 		}
-		switch st {
-		case callOK:
-			outs[i] = pOutcome{Status: "ok", Resp: resp}
-			stats["slow_cases_completed_when_rerun_alone"]++
-		case callCrashed:
-			outs[i] = pOutcome{Status: "crash", Detail: headTail(detail, 3000, 3000)}
-		}
-	}
 		if pp.post != nil {
 			runs += pp.post(pp, pw, reqs, owner, outs, env, rep, seed, stats)
 		}
